@@ -25,7 +25,9 @@ RULE = ("case = one point of the complete lattice functional{rootfinder,equilibr
         "(status, evaluation count, rounded residual, position of the returned tensor in the evaluation log)")
 RULE_ADDED = ("Added later: guess 'edge' / x_tol 'xfirst' boundary values, family 'const', method names in another "
               'letter case, gd/adam transition-conformance oracle, overshooting gd / adam steps (step 3/mu, adam st'
-              'ep 5) on runs of 1-3 iterations, call-order plane in fresh interpreters.')
+              'ep 5) on runs of 1-3 iterations, call-order plane in fresh interpreters. Round 4: families atan (uni'
+              'form far offsets 4/10/15: line search through its cubic stage) and expand (non-contractive map; Ande'
+              'rson / root finders).')
 ASSUMPTIONS = [
     "all tolerances and iteration limits are passed explicitly (f_tol, x_tol, f_rtol=x_rtol=inf resp. 0 for gd/adam, "
     "maxiter, alpha, step, momentum); nothing depends on a library default",
